@@ -23,7 +23,7 @@ import (
 // error comes back. See DESIGN.md §4 C02.
 
 var fsKinds = []string{"undefined", "null", "boolean", "number", "string", "object", "array", "function", "regexp", "date", "error", "trap", "trapfn", "negative", "big", "nan",
-	"regexp_neg", "error_child", "proto_null", "date_invalid", "string_obj", "args", "frozen_array", "sparse", "bound", "empty_string", "infinity"}
+	"regexp_neg", "error_child", "proto_null", "date_invalid", "string_obj", "args", "frozen_array", "sparse", "bound", "empty_string", "infinity", "pos_infinity", "max_int", "min_int", "tiny"}
 
 const fsPreludeJS = `
 var __n=0, __k=0, __mode='throw';
@@ -66,6 +66,10 @@ function __mk(kind){
   case 'bound': return function(a){return a}.bind({q:1},2);
   case 'empty_string': return '';
   case 'infinity': return -Infinity;
+  case 'pos_infinity': return Infinity;
+  case 'max_int': return 9223372036854775807;
+  case 'min_int': return -9223372036854775808;
+  case 'tiny': return 5e-324;
   case 'trap': return __mkTrap(false);
   case 'trapfn': return __mkTrap(true);
   }
@@ -145,6 +149,14 @@ func cellSrc(c *FSCase) string {
 	for i, a := range c.Args {
 		b.WriteString(",A" + strconv.Itoa(i) + "=__mk('" + a + "')")
 	}
+	if c.Path == "@throw" {
+		b.WriteString(";throw R;})()")
+		return b.String()
+	}
+	if c.Path == "@return" {
+		b.WriteString(";return R;})()")
+		return b.String()
+	}
 	b.WriteString(";return ")
 	if c.New {
 		b.WriteString("new " + c.Path + "(")
@@ -164,6 +176,50 @@ func cellSrc(c *FSCase) string {
 	}
 	b.WriteString(";})()")
 	return b.String()
+}
+
+// valueAccessors exercises the Value/Object accessors on a returned value; it
+// returns a description of the first one that panicked with something that
+// was not injected.
+func valueAccessors(vm *otto.Otto, v otto.Value) (bad string) {
+	try := func(name string, f func()) {
+		if bad != "" {
+			return
+		}
+		defer func() {
+			if x := recover(); x != nil {
+				if x == error(errIrqSentinel) {
+					return
+				}
+				if _, ok := x.(hostPanicVal); ok {
+					return
+				}
+				bad = fmt.Sprintf("Value.%s panicked with %T: %v", name, x, clip(fmt.Sprint(x)))
+			}
+		}()
+		f()
+	}
+	try("String", func() { _ = v.String() })
+	try("ToString", func() { v.ToString() })
+	try("ToInteger", func() { v.ToInteger() })
+	try("ToFloat", func() { v.ToFloat() })
+	try("ToBoolean", func() { v.ToBoolean() })
+	try("Export", func() { v.Export() })
+	try("Class", func() { _ = v.Class() })
+	try("Call", func() { v.Call(otto.NullValue(), 1) })
+	if o := v.Object(); o != nil {
+		try("Object.Keys", func() { o.Keys() })
+		try("Object.KeysByParent", func() { o.KeysByParent() })
+		try("Object.Get", func() { o.Get("x"); o.Get("length"); o.Get("0") })
+		try("Object.Set", func() { o.Set("x", 1); o.Set("length", 1) })
+		try("Object.Call", func() { o.Call("toString"); o.Call("valueOf"); o.Call("nosuch") })
+		try("Object.MarshalJSON", func() { o.MarshalJSON() })
+		try("Object.Value", func() { _ = o.Value().String() })
+	}
+	try("Otto.Set/Get", func() { vm.Set("__tmp", v); vm.Get("__tmp") })
+	try("Otto.Call", func() { vm.Call("String", nil, v); vm.Call("Number", nil, v) })
+	try("Otto.ToValue", func() { vm.ToValue(v) })
+	return bad
 }
 
 func cellKey(c *FSCase) string {
@@ -190,6 +246,30 @@ func runCell(r *fsRuntime, c *FSCase, st *Stats) (v *Violation, reuse bool) {
 		vm.SetStackDepthLimit(0)
 	}
 	val, err, panicked, pv := protectedRun(vm, src)
+	if !panicked && err == nil && c.Path == "@return" {
+		// the Value / Object accessors of the public API call back into the script
+		// (valueOf, toString, getters): they must return too
+		if av := valueAccessors(vm, val); av != "" {
+			vm.SetStackDepthLimit(0)
+			x := viol("C02", "go_panic_escaped", "%s fault=%s@%d: %s", cellKey(c), c.Fault, c.K, av)
+			x.Key = cellKey(c) + " accessor"
+			return x, false
+		}
+	}
+	if !panicked && err != nil {
+		// rendering the error is part of the API as well
+		func() {
+			defer func() {
+				if x := recover(); x != nil {
+					panicked, pv = true, fmt.Sprintf("err.Error() panicked: %v", x)
+				}
+			}()
+			_ = err.Error()
+			if oe, ok := err.(*otto.Error); ok {
+				_ = oe.String()
+			}
+		}()
+	}
 	vm.SetStackDepthLimit(0)
 	if eventLogOn {
 		ev("cell", cellKey(c), c.Fault, c.K, panicked, fmt.Sprint(err), valStr(val))
@@ -407,6 +487,31 @@ func (e fsEngine) Exec(ci interface{}, st *Stats) (*Violation, interface{}, bool
 	if c.Fault == "propsweep" {
 		return execPropSweep(c, st)
 	}
+	if c.Fault == "apisweep" {
+		// uncaught throw of a value of this kind, and the Value/Object accessors
+		// on a returned value of this kind, under every fault
+		for _, path := range []string{"@throw", "@return"} {
+			for _, f := range [][2]interface{}{{"none", 0}, {"throw", 1}, {"throw", 2}, {"throw", 3}, {"throw", 5}, {"host", 1}, {"host", 2}, {"irq", 1}, {"irq", 2}, {"limit", 2}, {"limit", 3}, {"limit", 4}} {
+				cc := &FSCase{Engine: "faultsweep", Path: path, Recv: c.Recv, Args: []string{}, Fault: f[0].(string), K: f[1].(int)}
+				r := newFSRuntime()
+				v, _ := runCell(r, cc, st)
+				if v != nil {
+					if kf := isKnown(v); kf != nil {
+						st.Known[kf.Property+" "+kf.Key]++
+						continue
+					}
+					if collectMode && v.Key != "" {
+						st.Probes["COLLECT "+v.Class+" | "+v.Key+" | "+clip(v.Detail)]++
+						continue
+					}
+					return v, cc, true
+				}
+			}
+		}
+		st.NonTrivial++
+		st.Sig(hashStr("api", c.Recv))
+		return nil, nil, true
+	}
 	if c.Prog != "" {
 		return execRecursion(c, st)
 	}
@@ -516,6 +621,7 @@ func (fsEngine) Enumerate(tier string) []interface{} {
 	}
 	for _, k := range fsKinds {
 		out = append(out, &FSCase{Engine: "faultsweep", Fault: "propsweep", Recv: k})
+		out = append(out, &FSCase{Engine: "faultsweep", Fault: "apisweep", Recv: k})
 	}
 	out = append(out, &FSCase{Engine: "faultsweep", Fault: "oomprobe", Path: "Array.prototype.toLocaleString", Recv: "neg_length", Args: []string{}})
 	out = append(out, &FSCase{Engine: "faultsweep", Fault: "oomprobe", Path: "Array.prototype.join", Recv: "neg_length", Args: []string{}})
